@@ -28,14 +28,17 @@ TB == Src("table", "B", "", <<<<"i", "int">>, <<"s", "str">>, <<"k", "int">>>>, 
 Contents == << [B |-> << <<1, 1, 10>> >>],
                [B |-> << <<1, 2, 20>>, <<2, 1, 30>> >>],
                [B |-> << <<3, 3, 40>>, <<4, 1, 50>>, <<5, 2, 60>> >>] >>
-\* two statements (two cache keys): a projection and an aggregate
+\* four statements: a projection, an aggregate, and two filters that differ ONLY in a literal (k > 15 / k > 35)
+LitInt(v) == Feat("lit", NilS, "", "int", v, "", <<>>)
+Above(v) == QueryOf(TB, <<Col(TB, "i"), Col(TB, "k")>>, Feat("op", NilS, "", "", "", "gt", <<Col(TB, "k"), LitInt(v)>>), <<>>, NilF, <<>>, <<>>)
 Stmts == << QueryOf(TB, <<Col(TB, "i"), Col(TB, "k")>>, NilF, <<>>, NilF, <<>>, <<>>),
             QueryOf(TB, <<Feat("alias", NilS, "n", "", "", "", <<Feat("agg", NilS, "", "", "", "count", <<Col(TB, "i")>>)>>)>>,
-                    NilF, <<>>, NilF, <<>>, <<>>) >>
+                    NilF, <<>>, NilF, <<>>, <<>>),
+            Above("15"), Above("35") >>
 FeedsAB == <<"f1", "f2">>
 FeedsM == <<"m1", "m2">>
 FeedsMixed == <<"f1", "m1">>
-NoLits == [k \in {"0"} |-> 0]
+NoLits == [k \in {"0", "15", "35"} |-> CASE k = "15" -> 15 [] k = "35" -> 35 [] OTHER -> 0]
 FeedSet == {Feeds[i] : i \in DOMAIN Feeds}
 \* feed number k starts on content k: equally named tables, different rows
 InitialStorage == [f \in FeedSet |-> CHOOSE i \in DOMAIN Feeds : Feeds[i] = f]
